@@ -179,7 +179,7 @@ theorem self_ok (t : Nat) (sh : Shared) (th : Thread) (hok : Ok sh t th) (hfree 
     simp only [trans]
     rw [dec32_of_pos _ hpos]
     split
-    · simp_all [Ok, Free, Idle]; omega
+    · simp_all [Ok, Free]; omega
     · simp only [ok_finish]
       simp_all [Ok, Free, Idle]; omega
   | uWr => simp_all [trans, Ok, Free]
